@@ -837,9 +837,192 @@ def isa_contract():
     )
 
 
+# ==================================================================== (e') .msg ==
+STRIPC = fun("str_strip_chars", S, S, S)
+ANGLE = r"<([^>]+)>\s*$"
+
+
+def psr_contract():
+    """_parse_single_recipient: the documented recipient formats."""
+    def parts(c):
+        raw = STRIP(c.args["raw"].t)
+        P = z3.StringVal(ANGLE)
+        return raw, P
+
+    def res(c):
+        r = c.result
+        if r is NONE:
+            return None
+        return addr_fields(c.st, r)
+
+    def e_none(c):
+        raw, P = parts(c)
+        return z3.BoolVal(res(c) is None) == (z3.Length(raw) == 0) if True else None
+
+    def e_angle(c):
+        raw, P = parts(c)
+        r = res(c)
+        if r is None:
+            return z3.Length(raw) == 0
+        nm, ad = r
+        pre = z3.SubString(raw, 0, M.RS_START(P, raw))
+        return z3.Implies(z3.Not(M.RS_NONE(P, raw)), z3.And(ad == STRIP(M.RS_GROUP(P, raw, 1)), nm == STRIPC(STRIP(pre), z3.StringVal("\"'"))))
+
+    def e_bare(c):
+        raw, P = parts(c)
+        r = res(c)
+        if r is None:
+            return z3.Length(raw) == 0
+        nm, ad = r
+        is_addr = z3.And(z3.Contains(raw, z3.StringVal("@")), z3.Not(z3.Contains(raw, z3.StringVal(" "))))
+        return z3.Implies(M.RS_NONE(P, raw), z3.And(z3.Implies(is_addr, z3.And(nm == M.EMPTY, ad == raw)),
+                                                    z3.Implies(z3.Not(is_addr), z3.And(nm == raw, ad == M.EMPTY))))
+
+    return FnContract(
+        target=f"{MSG}::_parse_single_recipient",
+        params=[("raw", p_str())],
+        ensures=[("None-iff-blank", e_none), ("angle-form:-address-inside-brackets,-name-before", e_angle),
+                 ("bare-address-or-name-only", e_bare)],
+        raises=[],
+        note="'Name <addr>' | '<addr>' | 'addr' | 'Name' | blank -> None (regex search assumed total, uninterpreted)",
+    )
+
+
+PMR_N = fun("parse_multi_recipients_n", M.MsgPropS, I)
+PMR_AT = fun("parse_multi_recipients_at", M.MsgPropS, I, ext_sort("EmailAddress"))
+LLH = fun("looks_like_html", S, B)
+H2T = fun("html_to_text", S, S)
+MSGATT_N = fun("msg_attachments_n", S, I)
+MSGATT_AT = fun("msg_attachments_at", S, I, ext_sort("EmailAttachment"))
+
+
+def msg_opaque_contracts():
+    """Helpers of read_msg_format_mail that are NOT verified here: used as deterministic functions of their arguments
+    (dataflow only); listed as assumed."""
+    unk = Maker(lambda ex, st, n: VUnk(n))
+
+    def pmr_result(ex, st, ctx):
+        raw = ctx.args["raw"]
+        if not (isinstance(raw, VExt) and raw.sort == "MsgProp"):
+            raise Unsupported("_parse_multi_recipients on a value that is not a message property")
+        st.assume(PMR_N(raw.t) >= 0)
+        return VSeq(PMR_N(raw.t), lambda k: VExt("EmailAddress", PMR_AT(raw.t, k)), ("obj", "EmailAddress"), tag=("pmr", raw.t))
+
+    def att_result(ex, st, ctx):
+        b = M.bytes_term(ctx.args["file_bytes"])
+        st.assume(MSGATT_N(b) >= 0)
+        return VSeq(MSGATT_N(b), lambda k: VExt("EmailAttachment", MSGATT_AT(b, k)), ("obj", "EmailAttachment"), tag=("msgatt", b))
+
+    return [
+        FnContract(target=f"{MSG}::_parse_multi_recipients", params=[("raw", unk)], assumed=True, result_maker=pmr_result,
+                   note="not verified here: deterministic function of the property value"),
+        FnContract(target=f"{MSG}::_extract_msg_attachments", params=[("file_bytes", unk)], assumed=True, result_maker=att_result,
+                   may_raise_any=True, note="not verified here: deterministic function of the file bytes; may raise (OLE parser)"),
+        FnContract(target=f"{MSG}::_looks_like_html", params=[("text", p_str())], assumed=True,
+                   returns=lambda c: VBool(LLH(c.args["text"].t)), note="not verified here: deterministic predicate"),
+        FnContract(target=f"{MSG}::_html_to_text", params=[("html_text", p_str())], assumed=True,
+                   returns=lambda c: VStr(H2T(c.args["html_text"].t)), note="not verified here: total (catches everything), deterministic"),
+    ]
+
+
+def read_msg_contract():
+    def mx(c):
+        return M.MSOX(M.CONTENT(c.args["file_like"].t))
+
+    def the_result(c):
+        ys = c.st.yielded
+        if len(ys) != 1 or not isinstance(ys[0], VRef):
+            return None
+        return ys[0]
+
+    def prop(c, name):
+        kk = z3.StringVal(name)
+        return M.MX_NONE(mx(c), kk), M.MX_STR(mx(c), kk)
+
+    def f(path):
+        def get(c):
+            r = the_result(c)
+            return None if r is None else M._path_get(c.st, r, path)
+        return get
+
+    def e_one(c):
+        return z3.BoolVal(the_result(c) is not None and not c.st.ghost.get("yield_count_unknown"))
+
+    def e_subject(c):
+        v = f(("subject",))(c)
+        none, s_ = prop(c, "subject")
+        return z3.And(z3.Not(none), v.t == STRIP(s_)) if isinstance(v, VStr) else z3.BoolVal(False)
+
+    def e_mid(c):
+        v = f(("metadata", "message_id"))(c)
+        if v is None:
+            return z3.BoolVal(False)
+        none, s_ = prop(c, "message_id")
+        n2, t2 = opt_parts(v)
+        return z3.And(n2 == none, z3.Implies(z3.Not(none), t2 == s_))
+
+    def e_date(c):
+        v = f(("metadata", "date"))(c)
+        none, s_ = prop(c, "sent_date")
+        return z3.And(z3.Not(none), M.DATE_OK(s_), v.t == M.ISO(M.PDATE(s_))) if isinstance(v, VStr) else z3.BoolVal(False)
+
+    def e_rcpt(field, pname):
+        def e(c):
+            v = f((field,))(c)
+            tag = M.seq_tag(c.st, v) if v is not None else None
+            want = M.MX_PROP(mx(c), z3.StringVal(pname))
+            if not (isinstance(tag, tuple) and tag[0] == "pmr"):
+                return z3.BoolVal(False)
+            return tag[1] == want
+        return e
+
+    def e_from(c):
+        v = f(("from_email",))(c)
+        if v is None:
+            return z3.BoolVal(False)
+        nm, ad = addr_fields(c.st, v)
+        sp = M.MX_PROP(mx(c), z3.StringVal("sender"))
+        first = PMR_AT(sp, 0)
+        return z3.If(PMR_N(sp) > 0, z3.And(nm == fld("EmailAddress", "name", S)(first), ad == fld("EmailAddress", "address", S)(first)),
+                     z3.And(nm == M.EMPTY, ad == M.EMPTY))
+
+    def e_body(c):
+        bp, bh = f(("body_plain",))(c), f(("body_html",))(c)
+        none, s_ = prop(c, "body")
+        raw = z3.If(z3.Or(none, z3.Length(s_) == 0), M.EMPTY, s_)
+        if not (isinstance(bp, VStr) and isinstance(bh, VStr)):
+            return z3.BoolVal(False)
+        return z3.And(bp.t == STRIP(z3.If(LLH(raw), H2T(raw), raw)), bh.t == z3.If(LLH(raw), raw, M.EMPTY))
+
+    def e_atts(c):
+        v = f(("attachments",))(c)
+        tag = M.seq_tag(c.st, v) if v is not None else None
+        if not (isinstance(tag, tuple) and tag[0] == "msgatt"):
+            return z3.BoolVal(False)
+        return tag[1] == M.CONTENT(c.args["file_like"].t)
+
+    return FnContract(
+        target=f"{MSG}::read_msg_format_mail",
+        params=[("file_like", p_ext("BytesIO")), ("path", p_opt(p_str()))],
+        hyps=lambda c: STRIP_EMPTY,
+        generator=True,
+        ensures=[("yields-exactly-one-result", e_one), ("subject-is-the-Subject-property", e_subject),
+                 ("message_id-is-InternetMessageId", e_mid), ("date-is-the-ISO-form-of-the-sent-date", e_date),
+                 ("from_email-is-the-first-parsed-sender", e_from),
+                 ("to_emails-from-the-To-property", e_rcpt("to_emails", "to")), ("to_cc-from-the-Cc-property", e_rcpt("to_cc", "cc")),
+                 ("to_bcc-from-the-Bcc-property", e_rcpt("to_bcc", "bcc")),
+                 ("bodies-from-the-Body-property", e_body), ("attachments-from-the-attachment-storages-of-the-same-bytes", e_atts)],
+        raises=[Raises(FAMILY, sub=True, label="every failure arrives in the ExtractionError family")],
+        note="field <- property mapping (dataflow); .msg is outside the RFC 5322 statement: totality is not claimed here",
+    )
+
+
 def contracts(reg):
     M.install(reg)
     out = []
+    out.append(psr_contract())
+    out.extend(msg_opaque_contracts())
+    out.append(read_msg_contract())
     out.extend(router_contracts(reg))
     out.append(eml_contract())
     out.append(read_eml_contract())
